@@ -662,6 +662,9 @@ class MainTransformer(object):
             return
 
         transfer = transfer_annotation[0]
+        if transfer not in TRANSFER_OPTIONS:
+            # The annotation parser has already warned about the invalid option
+            return
 
         target = self._transformer.lookup_typenode(node.type)
         target = self._transformer.resolve_aliases(target)
@@ -879,7 +882,8 @@ class MainTransformer(object):
             return
 
         scope_annotation = annotations.get(ANN_SCOPE)
-        if scope_annotation and len(scope_annotation) == 1:
+        if (scope_annotation and len(scope_annotation) == 1 and
+                scope_annotation[0] in SCOPE_OPTIONS):
             param.scope = scope_annotation[0]
 
         destroy_annotation = annotations.get(ANN_DESTROY)
